@@ -37,7 +37,7 @@ struct Req {
 struct Ghost {
   // grant registry: per thread the multiset of grants it holds on this lock (nested compatible
   // grants S+S / S+SIX by one thread are possible on Pessimistic/OptimisticLock)
-  int16_t ns[kMaxT] = {};        // shared grants (incl. PrepareRead fallback)
+  int32_t ns[kMaxT] = {};        // shared grants (incl. PrepareRead fallback)
   bool six[kMaxT] = {};
   bool xx[kMaxT] = {};
   bool converted[kMaxT] = {};    // the registered SIX/X grant was obtained through UPG/DWN
@@ -175,6 +175,7 @@ struct TState : OptSlots<L> {
   typename L::SIXGuard i[2];
   typename L::XGuard x[2];
   SlotModel m[5][2];
+  std::vector<typename L::SGuard> many[2];  // S_MANY: a large number of shared grants of this thread on lock 0 / 1
 };
 
 template <class L>
@@ -189,7 +190,7 @@ struct Interp {
   int
   held_mode(int l) const
   {
-    int best = 0;
+    int best = (l >= 0 && l < 2 && !ts->many[l].empty()) ? 1 : 0;
     for (int k : {kS, kI, kX, kC}) {
       for (int j = 0; j < 2; j++) {
         const auto &m = ts->m[k][j];
@@ -225,6 +226,9 @@ struct Interp {
   bool
   holds_above(int l) const
   {
+    for (int k = l + 1; k < 2; k++) {
+      if (k >= 0 && !ts->many[k].empty()) return true;
+    }
     for (int k : {kS, kI, kX, kC}) {
       for (int j = 0; j < 2; j++) {
         const auto &m = ts->m[k][j];
@@ -247,7 +251,7 @@ struct Interp {
     }
     return true;
   }
-  bool can_request(int l, int mode) const { return l < X->c->nlocks && !holds_above(l) && (held_mode(l) == 0 || nest_ok(l, mode)); }
+  bool can_request(int l, int mode) const { return l < X->c->nlocks && !holds_above(l) && ts->many[l & 1].empty() && (held_mode(l) == 0 || nest_ok(l, mode)); }
   bool can_wait_version(int l) const { return l < X->c->nlocks && held_mode(l) != 3 && !holds_above(l); }
 
   /*--------------------------------------------------------------------------
@@ -460,6 +464,29 @@ struct Interp {
     g.inrel[me] = false;
     m.owns = false;
     check_nodes("release");
+  }
+
+  void
+  release_many(int l)
+  {
+    auto &v = ts->many[l];
+    if (v.empty()) return;
+    auto &g = X->g[l];
+    vsched::nopreempt_enter();
+    g.ns[me] -= static_cast<int32_t>(v.size()) - 1;  // (before the releases: the registry stays a subset of what is held)
+    if (g.ns[me] < 1) g.ns[me] = 1;
+    g.inrel[me] = true;
+    vsched::heap_lib_scope(true);
+    cache_watch(true);
+    while (v.size() > 1) v.pop_back();
+    vsched::heap_lib_scope(false);
+    cache_watch(false);
+    g.inrel[me] = false;
+    vsched::nopreempt_leave();
+    SlotModel tm;
+    tm.owns = true;
+    tm.lock = l;
+    end_grant(tm, kS, "dtor", [&] { v.pop_back(); });
   }
 
   /*--------------------------------------------------------------------------
@@ -832,6 +859,42 @@ struct Interp {
         break;
       }
       case NOP: break;
+      case S_MANY: {
+        // n shared grants held by one thread at the same time (a history, not an interleaving: counters of the lock
+        // word next to their field boundaries). The first one is an ordinary request; the others cannot wait for anybody
+        // on Pessimistic/OptimisticLock (this thread holds S, so no X is active). On MCSLock a later LockS of the same
+        // thread would queue behind a writer that arrived meanwhile (client-made deadlock): single-thread cases only.
+        const int l = op.a & 1;
+        const uint32_t n = op.arg;
+        if (n < 2 || n > 70000 || !can_request(l, 1) || held_mode(l) != 0 || (X->is_mcs && (X->c->threads.size() != 1 || n > 32760))) {
+          X->out.skipped++;
+          break;
+        }
+        req_begin(l, 1);
+        typename L::SGuard first = lk[l].LockS();
+        grant(l, 1, "LockS");
+        if (!first) report("BOOL", "LockS returned a guard that converts to false");
+        ts->many[l].reserve(n);
+        ts->many[l].push_back(std::move(first));
+        vsched::nopreempt_enter();
+        vsched::heap_lib_scope(true);
+        cache_watch(true);
+        bool all_own = true;
+        for (uint32_t k = 1; k < n; k++) {
+          ts->many[l].push_back(lk[l].LockS());
+          all_own = all_own && static_cast<bool>(ts->many[l].back());
+          X->g[l].ns[me]++;  // (after the grant: the registry stays a subset of what is held)
+        }
+        vsched::heap_lib_scope(false);
+        cache_watch(false);
+        vsched::nopreempt_leave();
+        if (!all_own) report("BOOL", "LockS returned a guard that converts to false");
+        X->out.grants += static_cast<int>(n) - 1;
+        X->out.many_shared = std::max<uint32_t>(X->out.many_shared, n);
+        check_nodes("grant");
+        break;
+      }
+      case S_MANY_REL: release_many(op.a & 1); break;
       case HOLD:
         // a long-lived holder: others get many turns (retry / back-off budgets of waiters run out)
         for (uint32_t k = 0; k < op.arg && k < 400; k++) vsched::harness_yield();
@@ -1054,6 +1117,7 @@ struct Interp {
     }
     // end of thread: destroy every guard that still owns a grant, highest lock index first
     for (int l = X->c->nlocks - 1; l >= 0; l--) {
+      release_many(l);
       for (int kind : {kC, kX, kI, kS}) {
         for (int j = 1; j >= 0; j--) {
           auto &m = ts->m[kind][j];
@@ -1127,7 +1191,13 @@ run_case_t(const Case &c, const vsched::Config &cfg, Outcome &out, int *phase_ou
     specs[t].dep = c.threads[t].dep;
     specs[t].body = [&in, t] { in[t].body(static_cast<int>(t)); };
   }
-  vsched::run(specs, c.sched, cfg);
+  vsched::Config rcfg = cfg;
+  for (auto &th : c.threads) {
+    for (auto &op : th.ops) {
+      if (op.code == S_MANY && op.arg <= 70000) rcfg.maxsteps += 16ULL * op.arg;  // a long but bounded history
+    }
+  }
+  vsched::run(specs, c.sched, rcfg);
 
   if (ctx.is_mcs) {
     const auto hs = vsched::heap_stats();
